@@ -10,8 +10,8 @@ CONSTANTS
   MinHs = {0}
   Alwayss = {0}
   Implicit = {1}
-  MaxBlocks = 7
-  MaxHeight = 7
+  MaxBlocks = 6
+  MaxHeight = 6
   MaxLeaves = 1
   MaxTime = 14
   ForkHeights = {1000}
